@@ -359,6 +359,9 @@ func (s *lockSched) run(ch ksrig.SchedChooser, watchdog time.Duration, bodies ..
 type dirScenario struct {
 	scenario
 	HandleOf []int // thread -> handle index (threads with the same index share ONE keystore handle)
+	// CloseBetween: after the first handle has been opened and before the others are, one more handle on the directory is
+	// opened and closed (a tool run while the server keeps its keystore open)
+	CloseBetween bool
 }
 
 func (w *schedWorld) runDirScenario(r *ev.Run, sc *dirScenario, ch ksrig.SchedChooser, workload string, detail map[string]interface{}) (clean bool, res *lsResult) {
@@ -382,20 +385,37 @@ func (w *schedWorld) runDirScenario(r *ev.Run, sc *dirScenario, ch ksrig.SchedCh
 	handles := map[int]*handle{}
 	ctxs := make([]*threadCtx, n)
 	bodies := make([]func(), n)
+	users := map[int]int{}
+	for _, hi := range sc.HandleOf {
+		users[hi]++
+	}
 	for i := 0; i < n; i++ {
 		hi := sc.HandleOf[i]
-		if handles[hi] == nil {
+		i := i
+		opener := func() (*handle, error) {
 			b, err := factory()
 			if err != nil {
-				panic(err)
+				return nil, err
 			}
-			h, err := openHandle(&lsBackend{s: sched, inner: b}, w.keys, rec, i)
+			return openHandle(&lsBackend{s: sched, inner: b}, w.keys, rec, i)
+		}
+		if handles[hi] == nil {
+			if sc.CloseBetween && len(handles) == 1 {
+				t, err := opener()
+				if err != nil {
+					panic(err)
+				}
+				t.close()
+				r.Count("v2_handles_opened_and_closed", 1)
+			}
+			h, err := opener()
 			if err != nil {
 				panic(err)
 			}
 			handles[hi] = h
 		}
 		ctxs[i] = newThreadCtx(r, i, handles[hi].forThread(i), w.bundles, "dir")
+		ctxs[i].open, ctxs[i].owns = opener, users[hi] == 1
 		prog, x := sc.Progs[i], ctxs[i]
 		bodies[i] = func() { x.runProgram(prog) }
 	}
@@ -406,7 +426,7 @@ func (w *schedWorld) runDirScenario(r *ev.Run, sc *dirScenario, ch ksrig.SchedCh
 	r.Count("dirsched_backend_calls_scheduled", int64(len(res.Trace)))
 	r.Count("dirsched_lock_calls_seen_waiting", int64(res.BlockedWaits))
 	full := func() map[string]interface{} {
-		d := map[string]interface{}{"scenario": sc.Name, "setup": fmt.Sprint(sc.Setup), "programs": progStrings(sc.Progs), "thread_to_handle": sc.HandleOf,
+		d := map[string]interface{}{"scenario": sc.Name, "setup": fmt.Sprint(sc.Setup), "programs": progStrings(sc.Progs), "thread_to_handle": sc.HandleOf, "handle_opened_and_closed_between_the_opens": sc.CloseBetween,
 			"interleaving": res.Compact(), "interleaving_threads": res.Threads(), "backend": "directory (flock + in-process mutex), real lock, nothing modelled"}
 		for k, v := range detail {
 			d[k] = v
@@ -439,6 +459,12 @@ func (w *schedWorld) runDirScenario(r *ev.Run, sc *dirScenario, ch ksrig.SchedCh
 				d[k] = v
 			}
 			r.Violation(f.Sig, d)
+		}
+	}
+	for i, x := range ctxs {
+		if x.owns {
+			x.h.close() // the handle the thread ended with (Reopen closes the earlier ones itself)
+			delete(handles, sc.HandleOf[i])
 		}
 	}
 	for _, h := range handles {
@@ -545,6 +571,62 @@ func (w *schedWorld) dirSchedules(r *ev.Run, count int) {
 		if clean && i < 2 {
 			r.SampleN("dirsched", 2, map[string]interface{}{"kind": "controlled schedule on a directory: threads sharing handle 0 + a writer on handle 1, real flock", "setup": fmt.Sprint(sc.Setup),
 				"programs": progStrings(sc.Progs), "thread_to_handle": sc.HandleOf, "interleaving": res.Compact(), "lock_calls_seen_waiting": res.BlockedWaits})
+		}
+	}
+}
+
+// lifecycleDirScenario: handle life-cycle histories. Thread 0 = a writer whose handle stays open all the time (a server), thread 1 =
+// a writer on another handle, thread 2 (variants 1, 2) = a tool that opens a handle, maybe reads one ring, and closes it.
+//
+//	variant 0: a handle is opened and closed between the opens of the two writers' handles
+//	variant 1: writer 1 restarts (Reopen) before it writes; the tool runs once
+//	variant 2: two writes each, writer 1 restarts between its writes, the tool runs twice and reads
+func lifecycleDirScenario(rng *gen.Rand, name string, variant int) *dirScenario {
+	sc := &dirScenario{HandleOf: []int{0, 1}}
+	sc.Name = name
+	sc.Targets = []target{universe[rng.Intn(len(universe))]}
+	tg := sc.Targets[0]
+	sc.Setup = []action{{Kind: map[string]string{"pair": "GenPair", "sym": "GenSym", "hmac": "GenHmac"}[tg.Ring], Client: tg.Client}}
+	add := action{Kind: "RingAdd", Client: tg.Client, Ring: tg.Ring}
+	other := func() action {
+		for {
+			if a := genWrite(rng, sc.Targets, 0); a.Kind == "RingSetCur" || a.Kind == "RingSetState" || a.Kind == "RingAdd" {
+				return a
+			}
+		}
+	}
+	cycle := func(read int) action {
+		return action{Kind: "CycleHandle", Client: tg.Client, Ring: tg.Ring, Pick: read}
+	}
+	switch variant {
+	case 0:
+		sc.CloseBetween = true
+		sc.Progs = [][]action{{other()}, {add}}
+	case 1:
+		sc.Progs = [][]action{{other()}, {{Kind: "Reopen"}, add}, {cycle(0)}}
+		sc.HandleOf = []int{0, 1, 2}
+	default:
+		sc.Progs = [][]action{{add, other()}, {other(), {Kind: "Reopen"}, add}, {cycle(1), cycle(1)}}
+		sc.HandleOf = []int{0, 1, 2}
+	}
+	return sc
+}
+
+// dirLifecycleSchedules: every life-cycle scenario runs under a seeded random schedule and under a directed one that puts the
+// whole write cycle of writer 1 between the pull (Lock, Get) and the push (Put, Rename) of writer 0 — which only happens when the
+// lock does not keep them apart; otherwise writer 1 waits and SchedReplay moves on.
+func (w *schedWorld) dirLifecycleSchedules(r *ev.Run, count int) {
+	for i := 0; i < count; i++ {
+		rng := gen.New(r.Seed, fmt.Sprintf("c17-dirsched-life-%d", i))
+		sc := lifecycleDirScenario(rng, fmt.Sprintf("dir-life-cycle#%d", i), i%3)
+		detail := map[string]interface{}{"scenario_index": i, "seed": r.Seed}
+		clean, res := w.runDirScenario(r, sc, ksrig.SchedRandom{Rng: rng}, "dirsched-life-cycle-random", detail)
+		directed := ksrig.SchedReplay{Threads: []int{0, 0, 0, 1, 1, 1, 0, 0, 1, 1, 1, 1, 1, 1, 0, 0, 0, 0}}
+		w.runDirScenario(r, sc, directed, "dirsched-life-cycle-directed", detail)
+		r.Count("dirsched_lifecycle_executions", 2)
+		if clean && i < 3 {
+			r.SampleN("dirsched-life", 2, map[string]interface{}{"kind": "controlled schedule on a directory with handle life-cycle events (handles opened and closed around the writers)",
+				"programs": progStrings(sc.Progs), "thread_to_handle": sc.HandleOf, "handle_opened_and_closed_between_the_opens": sc.CloseBetween, "interleaving": res.Compact()})
 		}
 	}
 }
